@@ -15,19 +15,24 @@ Fixpoint leqb {A} (f : A -> A -> bool) (a b : list A) : bool :=
   end.
 Definition attr_eqb (a b : chars * N) : bool := chars_eqb' (fst a) (fst b) && N.eqb (snd a) (snd b).
 
-Fixpoint node_eqb (fuel : nat) (a b : node) : bool :=
+(* [ids]: compare the ids too.  Below a HIDDEN child (one that a sub-selection left in the dictionary but no longer lists) ids are
+   not compared: the property speaks of the children a container lists, and pydap leaves the ids of unlisted children as they
+   were when an ancestor is inserted elsewhere. *)
+Definition memb (k : chars) (l : list chars) : bool := existsb (chars_eqb' k) l.
+Fixpoint node_eqb_gen (fuel : nat) (ids : bool) (a b : node) : bool :=
   match fuel with
   | O => false
   | S f =>
     match a, b with
     | NBase n1 i1 a1 d1, NBase n2 i2 a2 d2 =>
-        chars_eqb' n1 n2 && leqb chars_eqb' i1 i2 && leqb attr_eqb a1 a2 && N.eqb d1 d2
+        chars_eqb' n1 n2 && (negb ids || leqb chars_eqb' i1 i2) && leqb attr_eqb a1 a2 && N.eqb d1 d2
     | NStruct k1 n1 i1 a1 ks1 v1, NStruct k2 n2 i2 a2 ks2 v2 =>
-        kind_eqb k1 k2 && chars_eqb' n1 n2 && leqb chars_eqb' i1 i2 && leqb attr_eqb a1 a2 &&
-        leqb (node_eqb f) ks1 ks2 && leqb chars_eqb' v1 v2
+        kind_eqb k1 k2 && chars_eqb' n1 n2 && (negb ids || leqb chars_eqb' i1 i2) && leqb attr_eqb a1 a2 &&
+        leqb (fun x y => node_eqb_gen f (ids && memb (nname x) v1) x y) ks1 ks2 && leqb chars_eqb' v1 v2
     | _, _ => false
     end
   end.
+Definition node_eqb (fuel : nat) (a b : node) : bool := node_eqb_gen fuel true a b.
 Definition nodes_eqb (a b : list node) : bool := leqb (fun x y => node_eqb (S (depth x)) x y) a b.
 
 (* (initial roots, [(op, observed roots after op)]) : every intermediate state must agree *)
